@@ -9,13 +9,23 @@ import tempfile
 from . import tlc, tv, impl
 from .front import cast
 
-NBOUND = 12
+def nb(tier):
+    """number of boundary values per width used by a run (Arch!Bound, ordered by importance)"""
+    return 8 if tier == "quick" else 12
+
+
+def extra(tier):
+    """F1 (all-equal boundary) + F2 (independent boundary) + F3 (random) inputs after the grids"""
+    return 2 * nb(tier) + (8 if tier == "quick" else 40)
+
+
 FAM_NIN = {
-    "std": lambda tier: 40 if tier == "quick" else 96,
-    "pairs": lambda tier: NBOUND * NBOUND + (24 if tier == "quick" else 64),
-    "grid": lambda tier: 2 * 256 * NBOUND + NBOUND * NBOUND + (24 if tier == "quick" else 64),
-    "full8": lambda tier: 65536 + 40,
-    "low8": lambda tier: 256 + (40 if tier == "quick" else 96),
+    "std": lambda tier: extra(tier) + (8 if tier == "quick" else 24),
+    "pairs": lambda tier: nb(tier) ** 2 + extra(tier),
+    "grid1": lambda tier: 256 * nb(tier) + nb(tier) ** 2 + extra(tier),
+    "grid": lambda tier: 2 * 256 * nb(tier) + nb(tier) ** 2 + extra(tier),
+    "full8": lambda tier: 65536 + extra(tier),
+    "low8": lambda tier: 256 + extra(tier),
 }
 
 
@@ -69,7 +79,10 @@ def run_batch(ctx, programs, il_subs=None, c_subs=None, formats=tv.FORMATS, stat
     """compile + validate a list of programs.  Does no classification."""
     res = TVRun()
     res.programs = len(programs)
+    import time as _t
+    _t0 = _t.time()
     comp = tv.compile_programs(programs, formats=formats)
+    res.t_compile = _t.time() - _t0
     res.comp = comp
     cases = []
     for p in programs:
@@ -81,8 +94,8 @@ def run_batch(ctx, programs, il_subs=None, c_subs=None, formats=tv.FORMATS, stat
                 res.unreadable.append((p["id"],) + tuple(st[1:]))
             continue
         fam = fam_override or p.get("fam", "std")
-        if fam == "grid" and ctx.tier == "thorough" and p.get("full8"):
-            fam = "full8"
+        if fam == "grid":
+            fam = ("full8" if p.get("full8") else "grid") if ctx.tier == "thorough" else "grid1"
         case["fam"] = fam
         case["gk"] = p.get("gk", ["op:s", "op:t"])
         case["nin"] = p.get("nin") or FAM_NIN[fam](ctx.tier)
@@ -92,7 +105,10 @@ def run_batch(ctx, programs, il_subs=None, c_subs=None, formats=tv.FORMATS, stat
     res.accepted = len(cases)
     if not cases:
         return res
-    r, s = tv.run_tv(cases, il_subs, c_subs, ctx.devsets(), 0, ctx.seed, timeout=timeout, static=static)
+    r, s = tv.run_tv(cases, il_subs, c_subs, ctx.devsets(), nb(ctx.tier), ctx.seed, timeout=timeout, static=static)
+    res.t_tv = r.wall
+    res.t_static = s.wall if s is not None else 0.0
+    ctx.notes.append("batch: compile %.1fs, TV %.1fs (%d states), Static %.1fs" % (res.t_compile, r.wall, r.states, res.t_static))
     if r.states == 0 or (r.error_text and "nvariant" not in r.error_text):
         raise tlc.TLCError("TV.tla did not run to completion:\n" + r.out[-4000:])
     res.states, res.transitions = r.states, r.transitions
